@@ -35,6 +35,8 @@ pub struct Applier<'f, 'a> {
     pub coords: &'f [f64],
     pub ops_left: u64,
     pub problems: Vec<String>,
+    /// Which alternate GSUB type 3 picks (0 = first).
+    pub alternate_index: usize,
     budget_reported: bool,
 }
 
@@ -63,6 +65,7 @@ impl<'f, 'a> Applier<'f, 'a> {
             coords,
             ops_left: MAX_OPS,
             problems: Vec::new(),
+            alternate_index: 0,
             budget_reported: false,
         }
     }
